@@ -31,17 +31,22 @@ def vkey(cause, key, inp):
 def run(r):
     quick = r.tier == "quick"
     r.trusted += TRUSTED_COMMON + [
-        "the tokeniser's control flow is abstracted to consume/rewind/emit/error/split actions (Model/Lex.v header lists every span-producing site of lex.rs); "
-        "token recognition itself is not modelled",
-        "the segmentation of the input (unicode-segmentation's extended grapheme clusters + the prefix split of Lexer::new) is re-derived in the harness with the same crate and exported to Coq",
-        "parser/compiler/LSP/formatter spans are not modelled beyond merge/end_to/just_start/just_end: their validity is checked functionally (tie + search) against loc_of_prefix",
-        "AST spans are collected from the serde serialisation of the AST (every CodeSpan field is serialised)",
+        "the tokeniser's control flow is abstracted to consume/rewind/emit/error actions over the positions the lexer has been at (Model/Lex.v header lists every span-producing site of lex.rs; "
+        "the split-identifier path is the action macro split_actions); token recognition itself is not modelled; the index discipline `disc` is a premise justified by reading lex.rs and observed by the tie (token order)",
+        "the segmentation of the input (unicode-segmentation's extended grapheme clusters + the prefix split of Lexer::new / `segments`) is re-derived in the harness with the same crate and exported to Coq",
+        "parser / compiler / language-server spans are not modelled beyond merge and end_to (just_start/just_end are defined, not proved): their validity is checked functionally (tie in Coq + search in Rust) against loc_of_prefix",
+        "formatter: end_loc, its compositionality, the running location of `struct Output` over push/pop (not remove_spaces) and the size guard's error span are modelled and proved; "
+        "the later shift of glyph-map entries for aligned end-of-line comments and which fragments are pushed are only checked (push_ok on the final output text, tie + search)",
+        "AST spans are collected from the serde serialisation of the AST (every CodeSpan field is serialised); compiler spans with a source other than the input (macros, builtins) are skipped",
+        "the Rust monitor used at volume in the search is cross-checked against the Coq predicates on every tie case (any disagreement is a broken obligation)",
     ]
     r.assumptions += ["input shorter than 2^32 bytes (fits32)",
                       "no line number and no column above 65535 (fits16): PROVED for every input accepted by the size guard of `lex` (C19_guard_excludes_saturation); "
                       "the unguarded bookkeeping saturates (C19_saturation_refuted_pre)",
-                      "segments are non-empty (segs_pos)", "the index discipline `disc` of the control flow (a token starts at or after the previous token's end and not after the current position)",
-                      "split identifiers (current code d7485e2): every token end is a position the lexer has been at, so the path is the primitive action sequence split_actions (the old arithmetic ASplit is kept only for the _pre records and excluded by split_free)"]
+                      "segments are non-empty (segs_pos)", "the index discipline `disc` of the control flow (a token starts at or after the previous token's end and not after the current position; no rewind before the last token's end)",
+                      "action sequences of the current code contain no arithmetic split (split_free): since d7485e2 every split-token end is a position the lexer has been at (split_actions); the old arithmetic ASplit is kept only for the _pre records",
+                      "formatter output side: columns above 65535 are clamped (open finding C19-fmt-out-col, C19_end_loc_saturation_refuted); line is a wrapping u16 (outputs of more than 65535 lines are outside the theorems' bounds)",
+                      "coverage (text outside all tokens is whitespace or inside a lexing-error span) is checked by the tie and the search, not proved"]
     if not r.harness(["c19"]):
         return
     r.proofs()
@@ -132,4 +137,4 @@ def run(r):
     r.coverage["distinct_nontrivial"] = len(set(c["src"] for c in cases if len(c["spans"]) >= 3))
     r.coverage["rule"] = ("inputs: random token soup over uiua's glyphs, ASCII primitive names and a fixed list of hard pieces (escapes, combining sequences, CR/CRLF, "
                           "multi-line strings, output comments (unevaluated soup and EVALUATED `##` at line start / end of line, indent 0-3 in modules and multi-line functions, values scalar/list/rank-2/rank-3/boxed), unterminated constructs, subscripts, `?` chains), mutated lines of /repo/tests and /repo/examples, "
-                          "preceded by the 18 former failing inputs of the repaired defect classes (escape + split identifier, combining mark, end-of-line-comment glyph map; also the first tie cases) and by a fixed regression corpus of 16 huge inputs around the 16-bit limits (9 that the guard must reject with the ordinary too-long error, 5 just inside the guard that must lex cleanly, 2 for the formatter output side: a 65535-character formatted line must be exact, a 65536-character one may only be clamped, never wrapped); non-trivial = at least 3 reported spans")
+                          "preceded by the 18 former failing inputs of the repaired defect classes (escape + split identifier, combining mark, end-of-line-comment glyph map; also the first tie cases), by 10 fixed inputs (9 with evaluated output comments incl. several-line values on indented lines, 1 for the open finding fmt-eol-comment-ws-ident) and by a fixed regression corpus of 16 huge inputs around the 16-bit limits (9 that the guard must reject with the ordinary too-long error, 5 just inside the guard that must lex cleanly, 2 for the formatter output side: a 65535-character formatted line must be exact, a 65536-character one may only be clamped, never wrapped); every 4th search input (and every evaluated-output-comment input) also goes through the compiler, the language server and the formatter; checked per input: every token / lex error / AST / parse error+diagnostic / compile error+diagnostic / highlight / glyph-map source span against the position recomputed from the byte prefix, token order and coverage, both output-side positions of every glyph-map entry against the formatted text, slicing under catch; non-trivial = at least 3 reported spans")
